@@ -8,7 +8,7 @@ COQ_HEADER = "From Plotink Require Import Base.Prelude Model.Simplify Corr.C09.\
 COQ_RUN = "run09"
 COQ_CASE_TYPE = "case09"
 SHARD = 200
-RULE = ("vertex lists of 0..40 vertices on integer / half-integer / rational grids: random walks, collinear runs, repeated points, closed loops with a zero-length "
+RULE = ("specks (a whole path inside a box of 0.72..1.0 tolerances per side, with hooks across the diagonal); vertex lists of 0..40 vertices on integer / half-integer / rational grids: random walks, collinear runs, repeated points, closed loops with a zero-length "
         "closing segment, sharp reversals, vertices projecting before the start / past the end / exactly at an end of the chord, distance exactly equal to the tolerance; "
         "tolerances <= 0, tiny, comparable to the step, huge; the survivors are identified by object identity; the predicate is also compared with "
         "max_dist_from_n_points on floats; plus float runs of supersample on long nearly straight runs (chord 1e3..1e11 tolerances long, offsets of 0.3..40 tolerances, "
@@ -72,6 +72,20 @@ def generate(rng, tier):
         elif tail == "hook": pts += [(x + 1, F(1, 2)), (x + 1, F(3)), (x - 2, F(3))]
         else: pts += [(x + 1, tol * 3), (x + 2, F(0)), (x + 3, F(0))]
         cases.append({"kind": "s", "pts": pts, "tol": tol, "family": "long-run/%d+%s" % (m, tail)})
+    # specks: the whole path fits in a box whose sides are a little shorter than the tolerance, yet a vertex can be farther than the
+    # tolerance from the chord of its neighbours (diagonally: up to 1.41 sides); hooks whose ends sit in one corner and apex in the opposite one
+    for _ in range(max(30, n // 8)):
+        tol = F(rng.choice([1, 2, 5, 10]), rng.choice([1, 4, 10])); side = tol * F(rng.choice([72, 80, 90, 95, 99, 100]), 100)
+        ox, oy = F(rng.randint(-50, 50)), F(rng.randint(-50, 50))
+        m = rng.choice([3, 3, 4, 5, 8])
+        g = lambda: side * F(rng.randint(0, 10), 10)
+        if rng.random() < 0.5:
+            pts = [(ox + g(), oy + g()) for _ in range(m)]
+        else:
+            lo = lambda: side * F(rng.randint(0, 2), 10); hi = lambda: side * F(rng.randint(8, 10), 10)
+            pts = [(ox + lo(), oy + lo())] + [(ox + hi(), oy + hi()) for _ in range(m - 2)] + [(ox + lo(), oy + lo())]
+            if rng.random() < 0.5: pts = [(x, 2 * oy + side - y) for x, y in pts]        # the other diagonal
+        cases.append({"kind": "s", "pts": pts, "tol": tol, "family": "speck/box=%d%%tol" % int(side * 100 / tol)})
     # float runs (the arithmetic of the code is the double-precision one): long, nearly straight runs with a tiny tolerance - the
     # offsets are a few tolerances, the chord 1e7..1e11 tolerances long - and ordinary drawing-sized float data; judged exactly
     import math
